@@ -165,7 +165,7 @@ ASSUMPTIONS = ["GNAT pruning: distances are exact integers standing for reals (l
                "elements are addressed by slot; the distance function returns a fixed non-NaN value per element; std::sort is an assumed contract (result ordered by the comparator)", "<= 64 stored elements"]
 TRUSTED = ["extraction rewrite table of units/C10.py", "stubs in units/C10/linear.c", "CBMC 6.11 DFCC + cadical"]
 NOT_COVERED = ["NearestNeighborsGNAT as a whole structure (recursion over the tree, Node::split (pivot selection) and the recursion of add below one node, nearestK pruning with the moving k-th best, rebuilds, removal cache), GNATNoThreadSafety beyond the draining of its member result queue, NearestNeighborsSqrtApprox: only the node primitives and the radius pruning step of one node are checked",
-               "nearestK of the linear structure (std::partial_sort), GreedyKCenters"]
+               "nearestK of the linear structure (std::partial_sort), GreedyKCenters, Node::split (caught by the native oracle only)"]
 
 MISC_CPPS = []
 NATIVE = [
